@@ -78,6 +78,7 @@ const (
 	OLt
 	OLe
 	OBV2Int // unsigned
+	OBV2IntS // signed (two's complement)
 	OInt2BV
 	OApp
 )
@@ -405,6 +406,11 @@ func (c *Ctx) Eq(a, b *Term) *Term {
 	}
 	if a.IsConst() && b.Op == OZext {
 		return c.Eq(b, a)
+	}
+	if a.Sort.K == KInt {
+		if x, y, ok := c.liftPair(a, b); ok {
+			return c.Eq(x, y)
+		}
 	}
 	if a.ID > b.ID {
 		a, b = b, a
@@ -761,6 +767,12 @@ func (c *Ctx) Sext(a *Term, w int) *Term {
 	if a.IsConst() {
 		return c.BVConst(a.SignedVal(), w)
 	}
+	if a.Op == OZext {
+		return c.Zext(a.Args[0], w)
+	}
+	if a.Op == OSext {
+		return c.Sext(a.Args[0], w)
+	}
 	return c.mk(OSext, BV(w), []*Term{a}, nil, "", w-a.Sort.W, 0)
 }
 
@@ -845,6 +857,9 @@ func (c *Ctx) Lt(a, b *Term) *Term {
 	if a == b {
 		return c.False
 	}
+	if x, y, ok := c.liftPair(a, b); ok {
+		return c.BVSlt(x, y)
+	}
 	return c.mk(OLt, Bool, []*Term{a, b}, nil, "", 0, 0)
 }
 func (c *Ctx) Le(a, b *Term) *Term {
@@ -854,7 +869,115 @@ func (c *Ctx) Le(a, b *Term) *Term {
 	if a == b {
 		return c.True
 	}
+	if x, y, ok := c.liftPair(a, b); ok {
+		return c.BVSle(x, y)
+	}
 	return c.mk(OLe, Bool, []*Term{a, b}, nil, "", 0, 0)
+}
+
+// NoLift disables the Int->BV lifting of comparisons (for experiments).
+var NoLift = false
+
+const maxLiftWidth = 320
+
+// lift expresses an Int term that is built from bit-vector conversions as a signed bit-vector of
+// some width w such that the Int value equals the signed value (no wrap-around can occur).
+func (c *Ctx) lift(t *Term, depth int) (*Term, bool) {
+	if depth > 24 {
+		return nil, false
+	}
+	switch t.Op {
+	case OConst:
+		w := t.Val.BitLen() + 1
+		if w > maxLiftWidth {
+			return nil, false
+		}
+		return c.BVConst(t.Val, w), true
+	case OBV2Int:
+		return c.Zext(t.Args[0], t.Args[0].Sort.W+1), true
+	case OBV2IntS:
+		return t.Args[0], true
+	case OAdd, OSub:
+		x, ok := c.lift(t.Args[0], depth+1)
+		if !ok {
+			return nil, false
+		}
+		y, ok := c.lift(t.Args[1], depth+1)
+		if !ok {
+			return nil, false
+		}
+		w := x.Sort.W
+		if y.Sort.W > w {
+			w = y.Sort.W
+		}
+		w++
+		if w > maxLiftWidth {
+			return nil, false
+		}
+		if t.Op == OAdd {
+			return c.BVAdd(c.Sext(x, w), c.Sext(y, w)), true
+		}
+		return c.BVSub(c.Sext(x, w), c.Sext(y, w)), true
+	case ONeg:
+		x, ok := c.lift(t.Args[0], depth+1)
+		if !ok {
+			return nil, false
+		}
+		w := x.Sort.W + 1
+		return c.BVNeg(c.Sext(x, w)), true
+	case OMul:
+		// multiplication by a constant only
+		if t.Args[1].IsConst() {
+			x, ok := c.lift(t.Args[0], depth+1)
+			if !ok {
+				return nil, false
+			}
+			k, _ := c.lift(t.Args[1], depth+1)
+			if k == nil {
+				return nil, false
+			}
+			w := x.Sort.W + k.Sort.W
+			if w > maxLiftWidth {
+				return nil, false
+			}
+			return c.BVMul(c.Sext(x, w), c.Sext(k, w)), true
+		}
+	case OIte:
+		x, ok := c.lift(t.Args[1], depth+1)
+		if !ok {
+			return nil, false
+		}
+		y, ok := c.lift(t.Args[2], depth+1)
+		if !ok {
+			return nil, false
+		}
+		w := x.Sort.W
+		if y.Sort.W > w {
+			w = y.Sort.W
+		}
+		return c.Ite(t.Args[0], c.Sext(x, w), c.Sext(y, w)), true
+	}
+	return nil, false
+}
+
+func (c *Ctx) liftPair(a, b *Term) (*Term, *Term, bool) {
+	if NoLift || a.Sort.K != KInt {
+		return nil, nil, false
+	}
+	// only worthwhile when at least one side is not a constant and both lift
+	x, ok := c.lift(a, 0)
+	if !ok {
+		return nil, nil, false
+	}
+	y, ok := c.lift(b, 0)
+	if !ok {
+		return nil, nil, false
+	}
+	w := x.Sort.W
+	if y.Sort.W > w {
+		w = y.Sort.W
+	}
+	return c.Sext(x, w), c.Sext(y, w), true
 }
 func (c *Ctx) Gt(a, b *Term) *Term { return c.Lt(b, a) }
 func (c *Ctx) Ge(a, b *Term) *Term { return c.Le(b, a) }
@@ -901,11 +1024,7 @@ func (c *Ctx) BV2IntSigned(a *Term) *Term {
 	if a.IsConst() {
 		return c.IntConst(a.SignedVal())
 	}
-	w := a.Sort.W
-	u := c.BV2Int(a)
-	half := c.IntConst(new(big.Int).Lsh(bigOne, uint(w-1)))
-	full := c.IntConst(new(big.Int).Lsh(bigOne, uint(w)))
-	return c.Ite(c.Lt(u, half), u, c.Sub(u, full))
+	return c.mk(OBV2IntS, Int, []*Term{a}, nil, "", 0, 0)
 }
 
 // Int2BV: a mod 2^w.
@@ -913,7 +1032,7 @@ func (c *Ctx) Int2BV(a *Term, w int) *Term {
 	if a.IsConst() {
 		return c.BVConst(a.Val, w)
 	}
-	if a.Op == OBV2Int && a.Args[0].Sort.W == w {
+	if (a.Op == OBV2Int || a.Op == OBV2IntS) && a.Args[0].Sort.W == w {
 		return a.Args[0]
 	}
 	return c.mk(OInt2BV, BV(w), []*Term{a}, nil, "", w, 0)
